@@ -139,8 +139,14 @@ fn settle(c: &mut RealCluster, order: &[usize], secs: u64) -> Result<u64, (Strin
 
 /// Starts the nodes one after the other, each only after the cluster has settled. Returns the live order (oldest first).
 fn form(c: &mut RealCluster, n: usize) -> Result<Vec<usize>, (String, String)> {
+    form_in(c, &(0..n).collect::<Vec<_>>())
+}
+
+/// The same with the nodes started in the given order (the order of their addresses in --replicate-address is the order
+/// of their indices: a node that starts later than a node listed after it meets a secondary first when it asks to join).
+fn form_in(c: &mut RealCluster, start_order: &[usize]) -> Result<Vec<usize>, (String, String)> {
     let mut order = vec![];
-    for i in 0..n {
+    for &i in start_order {
         if !c.start(i) {
             return Err(("inconclusive".into(), format!("n{} could not be started", i)));
         }
@@ -163,6 +169,21 @@ enum Trigger {
 
 fn c07_scenario(r: &mut Rng) -> (usize, Vec<Trigger>) {
     let n = if r.chance(1, 4) { 2 } else { 3 };
+    c07_triggers(r, n)
+}
+
+/// start order of the nodes (indices = position in the address list) and whether they bind 0.0.0.0
+fn c07_layout(r: &mut Rng, n: usize) -> (Vec<usize>, bool) {
+    let mut perm: Vec<usize> = (0..n).collect();
+    if r.chance(1, 2) {
+        for i in (1..n).rev() {
+            perm.swap(i, r.below(i + 1));
+        }
+    }
+    (perm, r.chance(1, 3))
+}
+
+fn c07_triggers(r: &mut Rng, n: usize) -> (usize, Vec<Trigger>) {
     let mut t = vec![];
     let (mut live, mut dead) = (n, 0);
     for _ in 0..r.range(2, 4) {
@@ -192,10 +213,11 @@ fn c07_scenario(r: &mut Rng) -> (usize, Vec<Trigger>) {
 }
 
 /// One scenario on a fresh cluster. Ok(points judged, longest settle) or Err((class of the step, problem, detail)).
-fn c07_once(n: usize, triggers: &[Trigger], tag: &str) -> Result<(u64, u64), (String, String, String)> {
+fn c07_once(n: usize, triggers: &[Trigger], start_order: &[usize], bind_any: bool, tag: &str) -> Result<(u64, u64), (String, String, String)> {
     let mut c = RealCluster::new(n, tag, &[]);
+    c.bind_any = bind_any;
     let res = (|| {
-        let mut order = form(&mut c, n).map_err(|e| ("sequential-joins".to_string(), e.0, e.1))?;
+        let mut order = form_in(&mut c, start_order).map_err(|e| ("sequential-joins".to_string(), e.0, e.1))?;
         let mut dead: Vec<usize> = vec![];
         let (mut points, mut longest) = (n as u64, 0u64);
         for t in triggers {
@@ -257,10 +279,11 @@ pub fn c07_real(v: &Verdicts, runs: usize, seed0: u64) -> RealStats {
     par_runs(runs, 8, |i| {
         let mut r = Rng::new(seed0.wrapping_mul(7_000_003).wrapping_add(i as u64));
         let (n, triggers) = c07_scenario(&mut r);
+        let (start_order, bind_any) = c07_layout(&mut r, n);
         let mut fails: Vec<(String, String, String)> = vec![];
         let mut ok = None;
         for attempt in 0..3 {
-            match c07_once(n, &triggers, &format!("c07-{}-{}", i, attempt)) {
+            match c07_once(n, &triggers, &start_order, bind_any, &format!("c07-{}-{}", i, attempt)) {
                 Ok(x) => {
                     ok = Some(x);
                     break;
@@ -274,7 +297,7 @@ pub fn c07_real(v: &Verdicts, runs: usize, seed0: u64) -> RealStats {
         }
         let mut s = st.lock().unwrap();
         s.runs += 1;
-        s.classes.insert(format!("{} nodes: {}", n, triggers.iter().map(|t| format!("{:?}", t)).collect::<Vec<_>>().join(" > ")));
+        s.classes.insert(format!("{} nodes started {:?}{}: {}", n, start_order, if bind_any { " bound to 0.0.0.0" } else { "" }, triggers.iter().map(|t| format!("{:?}", t)).collect::<Vec<_>>().join(" > ")));
         if !fails.is_empty() {
             s.retried += 1;
         }
@@ -289,7 +312,7 @@ pub fn c07_real(v: &Verdicts, runs: usize, seed0: u64) -> RealStats {
             }
             None if fails.len() == 3 && fails.iter().all(|f| f.0 == fails[0].0 && f.1 == fails[0].1) => {
                 drop(s);
-                v.report(json!({"check": "election-real-processes", "after_trigger": fails[0].0, "problem": fails[0].1}), json!({"nodes": n, "triggers": format!("{:?}", triggers), "three_attempts": fails.iter().map(|f| f.2.clone()).collect::<Vec<_>>()}));
+                v.report(json!({"check": "election-real-processes", "after_trigger": fails[0].0, "problem": fails[0].1}), json!({"nodes": n, "triggers": format!("{:?}", triggers), "started_in_order": start_order, "bound_to_any_address": bind_any, "three_attempts": fails.iter().map(|f| f.2.clone()).collect::<Vec<_>>()}));
             }
             None => {
                 s.inconclusive += 1;
@@ -388,15 +411,20 @@ fn c04_once(seed: u64, tag: &str, v: &Verdicts, st: &Mutex<RealStats>) -> Result
         for cl in clients.iter_mut() {
             cl.must("use-db d tok")?;
         }
+        // a WebSocket session on the primary: the transport that hands a command over exactly as the client framed it
+        let mut ws = crate::transports::WsClient::connect(&c.nodes[order[0]].ws).map_err(|e| format!("no WebSocket session: {}", e))?;
+        ws.send_text(&format!("auth {} {};use-db d tok", USER, PWD));
+        let _ = ws.read_until("ok", Duration::from_secs(10));
         let mut uniq = 0;
         let mut log: Vec<String> = vec![];
         let mut snapshot_earlier = false;
         let len = r.range(3, 8);
-        for _ in 0..len {
+        for step in 0..len {
             uniq += 1;
             let k = *r.pick(&["k1", "k2", "num"]);
-            let node = if r.chance(1, 3) { r.range(1, n - 1) } else { 0 };
-            let mut kind: &'static str = match r.below(14) {
+            let mut node = if r.chance(1, 3) { r.range(1, n - 1) } else { 0 };
+            let mut kind: &'static str = match if step == 1 { 14 } else { r.below(15) } {
+                14 => "set-with-white-space-at-the-end",
                 0..=3 => "set",
                 4..=5 => "set-safe",
                 6..=7 => "remove",
@@ -408,7 +436,12 @@ fn c04_once(seed: u64, tag: &str, v: &Verdicts, st: &Mutex<RealStats>) -> Result
             if k == "num" && (kind == "set" || kind == "set-safe") {
                 kind = "increment";
             }
+            let over_ws = kind == "set-with-white-space-at-the-end" && r.chance(2, 3);
+            if over_ws {
+                node = 0;
+            }
             let (line, key) = match kind {
+                "set-with-white-space-at-the-end" => (format!("set w{} tail{}{}", uniq % 2, uniq, *r.pick(&[" ", "  ", "\t", " \t "])), format!("w{}", uniq % 2)),
                 "set" => (if r.chance(1, 3) { format!("set {} same{}", k, r.below(2)) } else { format!("set {} v{} with words", k, uniq) }, k.to_string()),
                 "set-safe" => (format!("set-safe {} {} s{}", k, r.below(4), uniq), k.to_string()),
                 "remove" => (format!("remove {}", k), k.to_string()),
@@ -417,8 +450,15 @@ fn c04_once(seed: u64, tag: &str, v: &Verdicts, st: &Mutex<RealStats>) -> Result
                 "set-permissions" => (format!("set-permissions u{} rw k*", uniq % 2), format!("$$permission_$u{}", uniq % 2)),
                 _ => ("snapshot false d".to_string(), String::new()),
             };
-            log.push(format!("n{}: {}", node, line));
-            let _ = clients[node].cmd(&line)?;
+            log.push(format!("n{}{}: {:?}", node, if over_ws { " (websocket)" } else { "" }, line));
+            if over_ws {
+                if !ws.send_text(&line) {
+                    return Err("WebSocket session lost".into());
+                }
+                let _ = ws.read_until("ok", Duration::from_secs(10));
+            } else {
+                let _ = clients[node].cmd(&line)?;
+            }
             st.lock().unwrap().ops += 1;
             if kind == "snapshot" {
                 std::thread::sleep(Duration::from_millis(2300)); // two timer periods: every node has written its snapshot
@@ -429,7 +469,8 @@ fn c04_once(seed: u64, tag: &str, v: &Verdicts, st: &Mutex<RealStats>) -> Result
                 Err(Some(sets)) => {
                     let mut unknown = false;
                     for (db, key2, divergence, at) in diff(&sets, &tainted) {
-                        let sig = json!({"check": "convergence", "cause": "sequential-operation", "op": kind, "issued_at": if node == 0 {"primary"} else {"secondary"},
+                        // (a set whose value ends in white space is a set: same signature, the value is in the report)
+                        let sig = json!({"check": "convergence", "cause": "sequential-operation", "op": if kind == "set-with-white-space-at-the-end" { "set" } else { kind }, "issued_at": if node == 0 {"primary"} else {"secondary"},
                             "problem": divergence, "differs_at": if at == node { "the-issuing-node" } else { "another-secondary" }, "snapshot_earlier_in_history": snapshot_earlier});
                         let known = v.report(sig, json!({"engine": "real processes", "nodes": n, "after_failover": failover, "seed": seed, "ops": log, "detail": format!("{} key {} (written key {}): node {} differs from the primary", db, key2, key, at), "datasets": sets}));
                         tainted.insert(key2);
@@ -587,9 +628,10 @@ fn dbs_of(c: &RealCluster, i: usize) -> Option<BTreeMap<String, c05::Db>> {
     Some(out)
 }
 
-fn c05_once(sc: &c05::Scenario, tag: &str, v: &Verdicts, st: &Mutex<RealStats>) -> Result<(), String> {
+fn c05_once(sc: &c05::Scenario, bind_any: bool, tag: &str, v: &Verdicts, st: &Mutex<RealStats>) -> Result<(), String> {
     let n = if sc.bystander { 3 } else { 2 };
     let mut c = RealCluster::new(n, tag, &[("NUN_DECLUTTER_INTERVAL", "1")]);
+    c.bind_any = bind_any;
     c.log_level = "debug".into();
     let res = (|| -> Result<(), String> {
         let order = form(&mut c, n).map_err(|e| format!("formation: {} {}", e.0, e.1))?;
@@ -681,7 +723,7 @@ fn c05_once(sc: &c05::Scenario, tag: &str, v: &Verdicts, st: &Mutex<RealStats>) 
         {
             let mut s = st.lock().unwrap();
             s.keys_compared += compared;
-            s.classes.insert(format!("{}|{}|{}|{}", sync_kind, if sc.clean_stop { "clean" } else { "kill" }, if sc.wipe { "wiped" } else { "disk" }, n));
+            s.classes.insert(format!("{}|{}|{}|{}{}", sync_kind, if sc.clean_stop { "clean" } else { "kill" }, if sc.wipe { "wiped" } else { "disk" }, n, if bind_any { "|bound to 0.0.0.0" } else { "" }));
             s.bump(&format!("sync:{}", sync_kind), 1);
             if sc_sig.leaves_with_valid_oplog {
                 s.bump("joiner left with a valid operation log", 1);
@@ -717,7 +759,8 @@ pub fn c05_real(v: &Verdicts, runs: usize, seed0: u64) -> RealStats {
             sc = c05::Scenario { before: vec![CreateDb(0), CreateDb(2), Set(0, "k0".into(), 3), Set(0, "k1".into(), 1), CreateDb(1), Set(1, "k2".into(), 2), Snapshot(0), Snapshot(1), Snapshot(2)],
                 away: vec![Set(0, "k1".into(), 0), Remove(0, "k0".into()), Set(1, "k0".into(), 4)], during: vec![], clean_stop: true, wipe: false, bystander: i % 8 == 0, primary_changes_while_away: false, leaves_with_valid_oplog: true };
         }
-        let res = c05_once(&sc, &format!("c05-{}", i), v, &st);
+        // every third cluster: the nodes bind 0.0.0.0 and are known to each other by their external address
+        let res = c05_once(&sc, i % 3 == 1, &format!("c05-{}", i), v, &st);
         let mut s = st.lock().unwrap();
         s.runs += 1;
         if let Err(why) = res {
@@ -959,6 +1002,49 @@ fn c14_once(seed: u64, tag: &str, v: &Verdicts, st: &Mutex<RealStats>) -> Result
             }
             if burst.len() as u64 > allowed {
                 v.report(json!({"check": "burst", "command": name, "issued_at": if node == 0 {"primary"} else {"secondary"}, "problem": "more-messages-than-forward-plus-copies-plus-acks"}),
+                    json!({"engine": "real processes", "nodes": n, "command": line, "bound": allowed, "lines": burst}));
+            }
+        }
+        // a secondary that stalls (stopped process, connections stay open) while the primary takes a write, and comes back
+        // seconds later: the operation still costs one copy and one acknowledgement per secondary, however late
+        {
+            let stalled = order[n - 1];
+            if !wait_logs_quiet(&c, 300, 20) {
+                return Err("the nodes never stopped logging before a measurement".into());
+            }
+            let before = log_sizes(&c);
+            c.pause(stalled, true);
+            uniq += 1;
+            let line = format!("set k{} late{}", uniq, uniq);
+            let sent = clients[0].cmd(&line);
+            std::thread::sleep(Duration::from_millis(4500));
+            c.pause(stalled, false);
+            sent?;
+            if !wait_logs_quiet(&c, 600, 30) {
+                v.report(json!({"check": "burst", "command": "set", "issued_at": "primary", "problem": "no-quiescence-within-step-budget", "while": "a-secondary-was-stalled"}), json!({"engine": "real processes", "command": line}));
+                return Ok(());
+            }
+            let mut burst: Vec<String> = vec![];
+            for i in 0..n {
+                let mut lines = received_lines(&c, order[i], before[order[i]]);
+                if i == 0 {
+                    if let Some(p) = lines.iter().position(|l| l == &line) {
+                        lines.remove(p);
+                    }
+                }
+                burst.extend(lines.into_iter().map(|l| format!("received by n{}: {}", i, l)));
+            }
+            let allowed = 1 + 2 * s_count;
+            {
+                let mut s = st.lock().unwrap();
+                s.ops += 1;
+                s.judged_points += 1;
+                s.bump("protocol lines seen", burst.len() as u64);
+                s.bump("operations measured while a secondary was stalled for 4.5 s", 1);
+                s.classes.insert(format!("set@primary-with-a-stalled-secondary/n{}", n));
+            }
+            if burst.len() as u64 > allowed {
+                v.report(json!({"check": "burst", "command": "set", "issued_at": "primary", "problem": "more-messages-than-forward-plus-copies-plus-acks", "while": "a-secondary-was-stalled"}),
                     json!({"engine": "real processes", "nodes": n, "command": line, "bound": allowed, "lines": burst}));
             }
         }
